@@ -87,6 +87,24 @@ private:
         parse_xml(file_data);
     }
 
+    // composites and groups are parsed, validated and compiled recursively,
+    // the limit (a top-level composite and a message-level group have depth
+    // 1) keeps the recursion depth of every pass far below what the stack
+    // can take
+    static constexpr std::size_t max_nesting_depth = 64;
+
+    void throw_if_nested_too_deep(
+        const pugi::xml_node root, const std::size_t depth) const
+    {
+        if(depth > max_nesting_depth)
+        {
+            throw_error(
+                "{}: nesting is too deep, at most {} levels are supported",
+                locations.find(root.offset_debug()),
+                max_nesting_depth);
+        }
+    }
+
     pugi::xml_attribute get_required_attribute(
         const pugi::xml_node root, const std::string_view attribute_name) const
     {
@@ -446,7 +464,8 @@ private:
     }
 
     std::vector<sbe::composite_element>
-        parse_composite_elements(const pugi::xml_node root) const
+        parse_composite_elements(
+            const pugi::xml_node root, const std::size_t depth) const
     {
         std::vector<sbe::composite_element> elements;
         unique_set<std::string> unique_element_names;
@@ -461,7 +480,7 @@ private:
             }
             else if(is_node_name_equal_to(element_node.name(), "composite"))
             {
-                element = parse_composite_encoding(element_node);
+                element = parse_composite_encoding(element_node, depth + 1);
             }
             else if(is_node_name_equal_to(element_node.name(), "enum"))
             {
@@ -496,8 +515,11 @@ private:
         return elements;
     }
 
-    sbe::composite parse_composite_encoding(const pugi::xml_node root) const
+    sbe::composite parse_composite_encoding(
+        const pugi::xml_node root, const std::size_t depth = 1) const
     {
+        throw_if_nested_too_deep(root, depth);
+
         sbe::composite c{};
         c.location = locations.find(root.offset_debug());
         c.name = get_required_name(root);
@@ -506,7 +528,7 @@ private:
         c.semantic_type = get_semantic_type(root);
         c.added_since = get_added_since(root);
         c.deprecated_since = get_deprecated_since(root);
-        c.elements = parse_composite_elements(root);
+        c.elements = parse_composite_elements(root, depth);
 
         return c;
     }
@@ -644,8 +666,11 @@ private:
             .value_or("groupSizeEncoding");
     }
 
-    sbe::group parse_group_member(const pugi::xml_node root) const
+    sbe::group parse_group_member(
+        const pugi::xml_node root, const std::size_t depth) const
     {
+        throw_if_nested_too_deep(root, depth);
+
         sbe::group g{};
 
         g.location = locations.find(root.offset_debug());
@@ -657,7 +682,7 @@ private:
         g.semantic_type = get_semantic_type(root);
         g.added_since = get_added_since(root);
         g.deprecated_since = get_deprecated_since(root);
-        g.members = get_level_members(root);
+        g.members = get_level_members(root, depth);
 
         return g;
     }
@@ -676,7 +701,8 @@ private:
         return d;
     }
 
-    sbe::level_members get_level_members(const pugi::xml_node root) const
+    sbe::level_members get_level_members(
+        const pugi::xml_node root, const std::size_t depth = 0) const
     {
         // does NOT verify member IDs since their uniqueness scope is not
         // specified
@@ -701,7 +727,7 @@ private:
             }
             else if(is_node_name_equal_to(child.name(), "group"))
             {
-                auto g = parse_group_member(child);
+                auto g = parse_group_member(child, depth + 1);
                 throw_if_unexpected_member_type(
                     ordered_member_type::group,
                     prev_member_type,
